@@ -24,6 +24,10 @@ func TestMain(m *testing.M) { kit.Main(m, "C09") }
 //	iws      the receiver announces SETTINGS_INITIAL_WINDOW_SIZE = N
 //	maxframe the receiver announces SETTINGS_MAX_FRAME_SIZE = N (never lowered)
 //	ack      the sender processes (and acknowledges) the SETTINGS it has received
+//	churn    N short streams come and go (the client opens each with HEADERS + END_STREAM on a
+//	         fresh identifier; when the server is the DATA sender it answers each the same
+//	         way): the relay sees hundreds of stream identifiers while the measured
+//	         streams stay open
 //	rst      the receiver resets stream S (RST_STREAM CANCEL). The sender may still have
 //	         DATA for that stream on its way: up to two later sends on S are such late
 //	         frames. They count against the connection window like any DATA, so their
@@ -130,6 +134,13 @@ func (r *ref) blocked() (stream int, byConn bool) {
 
 func (r *ref) apply(op Op) {
 	switch op.K {
+	case "churn":
+		r.set["many-other-streams"] = true
+		for s := range r.sent {
+			if r.sent[s] && !r.reset[s] {
+				r.set["many-other-streams-while-a-stream-has-window-state"] = true
+			}
+		}
 	case "rst":
 		r.reset[op.S] = true
 		r.queue[op.S] = nil // whatever was held for it need not be delivered any more
@@ -277,6 +288,7 @@ func genCase(t *rapid.T) Case {
 	pending := false
 	model := newRef(c.Streams)
 	closed := make([]bool, c.Streams)
+	churned := false
 	late := make([]int, c.Streams) // DATA frames the sender may still send on a stream the receiver has reset
 	if c.Lazy && rapid.Bool().Draw(t, "early_grant") {
 		// credit for a stream the server has not answered yet, and room on the connection
@@ -295,8 +307,13 @@ func genCase(t *rapid.T) Case {
 			kinds = []string{"send", "send", "send", "wu", "wu", "wu", "wu", "wu", "wu", "iws", "iws", "ack", "rst"}
 		}
 		k := rapid.SampledFrom(kinds).Draw(t, "kind")
+		if !churned && i > 2 && rapid.IntRange(0, 59).Draw(t, "churn") == 0 {
+			k, churned = "churn", true
+		}
 		op := Op{K: k, Pad: -1}
 		switch k {
+		case "churn":
+			op.N = rapid.SampledFrom([]int{260, 300}).Draw(t, "churn_streams")
 		case "rst":
 			op.S = rapid.IntRange(0, c.Streams-1).Draw(t, "rst_stream")
 			if model.reset[op.S] {
@@ -490,6 +507,7 @@ type session struct {
 	reset    []bool           // the receiver has reset the stream
 	creditOK bool             // false once a credit failure was reported (report once)
 	gaveUp   bool             // a stranding failure was reported: the case is decided
+	nextID   uint32           // next identifier for a short-lived stream (churn)
 }
 
 func (x *session) fail(liveness bool, sig, format string, args ...interface{}) {
@@ -531,6 +549,32 @@ func (x *session) settle(between func()) bool {
 		return false
 	}
 	return true
+}
+
+// churn lets n short streams come and go.
+func (x *session) churn(n int) string {
+	if x.nextID == 0 {
+		x.nextID = 1001
+	}
+	req := []h2kit.Field{{N: ":method", V: "GET"}, {N: ":scheme", V: "https"}, {N: ":path", V: "/"}}
+	first, last := x.nextID, uint32(0)
+	for k := 0; k < n; k++ {
+		last = x.nextID
+		x.s.Client.WriteHeaders(h2kit.HeadersSpec{Stream: last, Pad: -1, EndStream: true, Fields: req})
+		x.nextID += 2
+	}
+	if !x.s.Server.Wait(x.bound, func(r *h2kit.Rec) bool { return len(r.Streams[last]) > 0 || r.Done }) {
+		return fmt.Sprintf("%d request HEADERS did not all reach the server within %v", n, x.bound)
+	}
+	if x.c.Reverse {
+		for id := first; id <= last; id += 2 {
+			x.s.Server.WriteHeaders(h2kit.HeadersSpec{Stream: id, Pad: -1, EndStream: true, Fields: []h2kit.Field{{N: ":status", V: "204"}}})
+		}
+		if !x.s.Client.Wait(x.bound, func(r *h2kit.Rec) bool { return len(r.Streams[last]) > 0 || r.Done }) {
+			return fmt.Sprintf("%d response HEADERS did not all reach the client within %v", n, x.bound)
+		}
+	}
+	return ""
 }
 
 func (x *session) done(e *h2kit.Endpoint) bool {
@@ -606,6 +650,8 @@ func shapeOf(c Case, upto int) string {
 	}
 	l := labels(Case{Reverse: c.Reverse, Lazy: c.Lazy, Streams: c.Streams, Ops: c.Ops[:upto]})
 	switch {
+	case l["many-other-streams-while-a-stream-has-window-state"]:
+		return "after-hundreds-of-other-streams"
 	case l["more-than-15-frames-released-at-once"]:
 		return "after-more-than-15-frames-released-at-once"
 	case l["repeated-settings-identifier"]:
@@ -768,6 +814,11 @@ func runOnce(c Case, bound time.Duration) (kit.Verdict, bool) {
 						x.optWU[id] += int64(n)
 					}
 				}
+			}
+		case "churn":
+			if msg := x.churn(op.N); msg != "" {
+				x.fail(true, "C09/session/many-streams/short-streams-not-relayed", "step %d: %s%s", i, msg, x.diag())
+				return x.v, x.slow
 			}
 		case "rst":
 			x.R.WriteRST(x.ids[op.S], 8)
@@ -937,6 +988,38 @@ func TestBurstRelease(t *testing.T) {
 	})
 }
 
+// propManyIDs: the window state of an open stream must survive hundreds of other streams.
+var propManyIDs = &kit.Prop[Case]{
+	ID: "C09", Name: "many-stream-ids",
+	Rule: "ALL combinations of: a stream consumes 49 152 octets of its 65 535-octet window (or is granted 20 000 octets before its first frame); 260 / 600 short streams then come and go; connection credit is ample; 16 384 more octets are sent on the old stream (the first is held by its stream window, the second is covered by the early grant), then 1 octet of stream credit; either direction; oracle as for histories; non-trivial = every case",
+	Run:  run, Classes: classes,
+}
+
+func TestManyStreamIDs(t *testing.T) {
+	if kit.Race() {
+		t.Skip("sequential enumeration")
+	}
+	propManyIDs.Enumerate(t, func(yield func(Case) bool) {
+		for _, n := range []int{260, 600} {
+			for _, rev := range []bool{false, true} {
+				used := []Op{{K: "send", Pad: -1, N: 16384}, {K: "send", Pad: -1, N: 16384}, {K: "send", Pad: -1, N: 16384},
+					{K: "churn", Pad: -1, N: n}, {K: "wu", Pad: -1, S: -1, N: 1 << 20},
+					{K: "send", Pad: -1, N: 16384}, {K: "wu", Pad: -1, S: 0, N: 1}}
+				if !yield(Case{Reverse: rev, Streams: 1, Ops: used}) {
+					return
+				}
+				if rev {
+					granted := []Op{{K: "wu", Pad: -1, S: 0, N: 20000}, {K: "wu", Pad: -1, S: -1, N: 1 << 20}, {K: "churn", Pad: -1, N: n},
+						{K: "send", Pad: -1, N: 16384}, {K: "send", Pad: -1, N: 16384}, {K: "send", Pad: -1, N: 16384}, {K: "send", Pad: -1, N: 16384}, {K: "send", Pad: -1, N: 16384}}
+					if !yield(Case{Reverse: true, Lazy: true, Streams: 1, Ops: granted}) {
+						return
+					}
+				}
+			}
+		}
+	})
+}
+
 func TestReplay(t *testing.T) {
-	kit.Replay(t, propHistories, propFrameSize, propEarlyGrant, propBurst)
+	kit.Replay(t, propHistories, propFrameSize, propEarlyGrant, propBurst, propFit, propManyIDs)
 }
